@@ -1,8 +1,10 @@
 (** C32 — concrete runs of the registration / start-up transition system:
     the guard is satisfiable by a run with failures, deactivation,
-    re-registration, close and restart; the three overlap shapes (start-up
-    window, shutdown window, second first registration) each deliver sequence
-    numbers twice; with the repair the same event lists start one goroutine. *)
+    re-registration, close and restart; before the repair ([fx = false]) the
+    three overlap shapes (start-up window, shutdown window, second first
+    registration) each delivered sequence numbers twice; with the repair
+    ([fx = true], the code in /repo) the first two start one goroutine, the
+    third is the open part of finding C32-F2. *)
 From Coq Require Import List ZArith Bool Lia.
 From C33 Require Import C32.Model C32.Spec C32.ModelReg C32.ProofsRegMain C32.ProofsRegRec.
 Import ListNotations.
@@ -32,10 +34,18 @@ Example guarded_run_nontrivial :
   y_acked y = [2; 3; 4; 5; 6] /\ y_rcd y = 6 /\ live_tasks y = 1%nat /\ length (y_ts y) = 3%nat /\ y_act y = true.
 Proof. vm_compute. repeat split; reflexivity. Qed.
 
-(** Start-up window: the witness of the refutations. *)
+(** The same run on the code with the repair: the guard of the _partial
+    theorems (no step of a second first registration) holds for it. *)
+Example guarded_run_repaired :
+  forallb fixed_guard w_guarded = true /\
+  let y := yrun true wcfg wstore (init_sys0 true 1) w_guarded in
+  y_acked y = [2; 3; 4; 5; 6] /\ y_rcd y = 6 /\ live_tasks y = 1%nat /\ length (y_ts y) = 3%nat /\ y_act y = true.
+Proof. vm_compute. repeat split; reflexivity. Qed.
+
+(** Start-up window, before the repair. *)
 Example startup_overlap_duplicates :
-  guard_run false wcfg wstore (init_sys0 false 1) w_dup = false /\
-  let y := yrun false wcfg wstore (init_sys0 false 1) w_dup in
+  guard_run false wcfg wstore (init_sys0 false 1) w_old_dup = false /\
+  let y := yrun false wcfg wstore (init_sys0 false 1) w_old_dup in
   y_acked y = [2; 3; 4; 5; 2; 3] /\ y_rcd y = 3 /\ live_tasks y = 2%nat.
 Proof. vm_compute. repeat split; reflexivity. Qed.
 
@@ -61,7 +71,8 @@ Definition w_addtask : list yev :=
   [VSetLast 1; VAddTask; VRead 0; VRun 0; VRead 1; VRun 1; VSeq 0 5; VPostOk 0; VSeq 1 5; VPostOk 1].
 
 Example addtask_overlap_duplicates :
-  let y := yrun false wcfg wstore (init_sys0 false 1) w_addtask in
+  forallb fixed_guard w_addtask = false /\
+  let y := yrun true wcfg wstore (init_sys0 true 1) w_addtask in
   y_acked y = [2; 3; 2; 3] /\ live_tasks y = 2%nat /\ y_entry y = Some 1%nat.
 Proof. vm_compute. repeat split; reflexivity. Qed.
 
@@ -79,7 +90,7 @@ Qed.
 
 (** With the repair the same event lists start one goroutine and deliver once. *)
 Example fixed_startup :
-  let y := yrun true wcfg wstore (init_sys0 true 1) w_dup in
+  let y := yrun true wcfg wstore (init_sys0 true 1) w_old_dup in
   y_acked y = [2; 3; 4; 5] /\ y_rcd y = 5 /\ live_tasks y = 1%nat /\ length (y_ts y) = 1%nat.
 Proof. vm_compute. repeat split; reflexivity. Qed.
 
@@ -99,7 +110,7 @@ Proof. vm_compute. eexists. repeat split; try reflexivity; discriminate. Qed.
 (** The unguarded "recorded only after acknowledged" theorem applies to the
     overlapping runs (they contain no VSetLast) and is not vacuous there. *)
 Example rec_after_ack_on_overlap :
-  forallb no_setlast w_dup = true /\ forallb no_setlast w_shutdown = true /\
-  let y := yrun false wcfg wstore (init_sys0 false 1) w_dup in
+  forallb no_setlast w_old_dup = true /\ forallb no_setlast w_shutdown = true /\
+  let y := yrun false wcfg wstore (init_sys0 false 1) w_old_dup in
   y_rcd y = 3 /\ In 3 (y_acked y).
 Proof. vm_compute. repeat split; try reflexivity. right. left. reflexivity. Qed.
